@@ -196,6 +196,14 @@ def load_mutants() -> list[dict]:
                 if m.get("caught_by") and m.get("applies_to_current_tree", True):
                     out.append({"name": f"seeded/{d}", "property": m["property"], "patch": patch, "expect": "violation",
                                 "checks": m["caught_by"]})
+    # behaviour-preserving refactorings written by independent agents (each verified by them with the test suite and a
+    # differential run over >1000 inputs): every check must stay silent
+    benign = os.path.join(VERIF, "benign")
+    if os.path.isdir(benign):
+        for d in sorted(os.listdir(benign)):
+            patch = os.path.join(benign, d, "patch.diff")
+            if os.path.exists(patch):
+                out.append({"name": f"benign-agent/{d}", "property": "ALL", "patch": patch, "expect": "silent", "checks": allp})
     return out
 
 
